@@ -301,7 +301,7 @@ fn fesrv_structured(cfg: &Cfg, rng: &mut Rng) {
     // well-framed requests with 0..=3 descriptors: handler invoked iff exactly the prescribed count
     for k in 0..6u64 {
         for nfds in 0..=3usize {
-            for reply_ack in [false, true] {
+            for (reply_ack, hv) in [false, true].into_iter().flat_map(|r| [0u64, 3, 4, 5, 6, 7].into_iter().map(move |h| (r, h))) {
                 let h = Arc::new(Mutex::new(RecFrontend::default()));
                 h.lock().unwrap().out = Some(FeOut::Val(0));
                 let mut srv = FrontendReqHandler::new(h.clone()).expect("FrontendReqHandler");
@@ -316,20 +316,36 @@ fn fesrv_structured(cfg: &Cfg, rng: &mut Rng) {
                 };
                 let files: Vec<std::fs::File> = (0..nfds).map(|_| sys::memfd("c06", 4096)).collect();
                 let fds: Vec<RawFd> = files.iter().map(|f| f.as_raw_fd()).collect();
-                sys::send_all(peer_fd, &spec::msg(code, F_VERSION1 | F_NEED_REPLY, &body), &fds).expect("send");
+                // header variants: two well-formed ones, then malformed ones (a request never has REPLY
+                // set, the version is 1, the size is the request's body size)
+                let (flags, bytes_on_wire, well_formed_hdr, hname) = match hv {
+                    0 | 1 | 2 => (F_VERSION1 | F_NEED_REPLY, body.clone(), true, "need-reply"),
+                    3 => (F_VERSION1, body.clone(), true, "plain"),
+                    4 => (F_VERSION1 | F_REPLY, body.clone(), false, "reply-flag-set"),
+                    5 => (F_VERSION1 | F_REPLY | F_NEED_REPLY, body.clone(), false, "reply-and-need-reply"),
+                    6 => (2 | F_NEED_REPLY, body.clone(), false, "version-2"),
+                    _ => {
+                        let mut longer = body.clone();
+                        longer.push(0);
+                        (F_VERSION1 | F_NEED_REPLY, longer, false, "size-plus-one")
+                    }
+                };
+                sys::send_all(peer_fd, &spec::msg(code, flags, &bytes_on_wire), &fds).expect("send");
+                // (malformed size: everything announced was sent, so the server cannot block)
                 let res = util::catch(|| srv.handle_request());
                 report::eval(1);
                 report::count("fesrv.structured", 1);
-                report::distinct_str(&format!("fesrv:{name}:{nfds}:{reply_ack}"));
+                report::distinct_str(&format!("fesrv:{name}:{nfds}:{reply_ack}:{hname}"));
+                let name = if well_formed_hdr { name } else { format!("{name}:{hname}") };
                 let calls = h.lock().unwrap().log.len();
-                let should = nfds == want;
+                let should = nfds == want && well_formed_hdr;
                 match res {
                     Err(p) => report::violation(&format!("C06:fesrv:{name}:panic"), jo! {"fds_attached" => nfds, "panic" => p.msg, "at" => p.location}, cfg.replay("fesrv")),
                     Ok(r) => {
                         if (calls == 1) != should || (should && r.is_err()) || (!should && r.is_ok()) {
                             report::violation(
-                                &format!("C06:fesrv:{name}:{}", if should { "well-formed-request-not-dispatched" } else { "dispatched-with-wrong-descriptor-count" }),
-                                jo! {"request" => name.as_str(), "fds_attached" => nfds, "fds_prescribed" => want, "handler_invocations" => calls, "result" => format!("{r:?}")},
+                                &format!("C06:fesrv:{name}:{}", if should { "well-formed-request-not-dispatched" } else if well_formed_hdr { "dispatched-with-wrong-descriptor-count" } else { "malformed-header-dispatched" }),
+                                jo! {"request" => name.as_str(), "header" => hname, "fds_attached" => nfds, "fds_prescribed" => want, "handler_invocations" => calls, "result" => format!("{r:?}")},
                                 cfg.replay("fesrv"),
                             );
                         }
